@@ -433,3 +433,109 @@ func ReproSelfContaining() (bool, string) {
 	}
 	return false, "a singleton list containing itself is elided: " + clip(text, 80)
 }
+
+// ---- elision model: what is nested deeper than the limit - and nothing else - is elided ----
+
+// refFormat is the harness's own statement of the documented layout for
+// collections of integers: empty -> "[ ](K)", one item inline, several items one
+// per line indented by four spaces per multi-line level, a collection nested
+// deeper than `max` collections -> "[...](K)".
+type refNode struct {
+	kind string
+	leaf int64
+	kids []*refNode
+}
+
+func refFormat(n *refNode, level, indent, max int, sb *strings.Builder) {
+	if n.kind == "" {
+		fmt.Fprintf(sb, "%d", n.leaf)
+		return
+	}
+	sb.WriteString("[")
+	switch {
+	case level+1 > max:
+		sb.WriteString("...")
+	case len(n.kids) == 0:
+		sb.WriteString(" ")
+	case len(n.kids) == 1:
+		refFormat(n.kids[0], level+1, indent, max, sb)
+	default:
+		for _, k := range n.kids {
+			sb.WriteString("\n" + strings.Repeat("    ", indent+1))
+			refFormat(k, level+1, indent+1, max, sb)
+		}
+		sb.WriteString("\n" + strings.Repeat("    ", indent))
+	}
+	sb.WriteString("](" + n.kind + ")")
+}
+
+func genRef(r *core.Rng, depth int) *refNode {
+	if depth <= 0 || r.Chance(1, 4) {
+		return &refNode{leaf: int64(r.Intn(10))}
+	}
+	n := &refNode{kind: []string{"List", "Array", "Stack", "Queue"}[r.Intn(4)]}
+	k := []int{0, 1, 1, 2, 2, 3}[r.Intn(6)]
+	for i := 0; i < k; i++ {
+		n.kids = append(n.kids, genRef(r, depth-1))
+	}
+	return n
+}
+
+func (n *refNode) build() any {
+	if n.kind == "" {
+		return n.leaf
+	}
+	items := make([]any, len(n.kids))
+	for i, k := range n.kids {
+		items[i] = k.build()
+	}
+	switch n.kind {
+	case "List":
+		return col.List[any](notation).MakeFromArray(items)
+	case "Array":
+		return col.Array[any](notation).MakeFromArray(items)
+	case "Stack":
+		return col.Stack[any](notation).MakeFromArray(items)
+	}
+	return col.Queue[any](notation).MakeFromArray(items)
+}
+
+// RunC10Elision: random trees up to depth 12 formatted with limits 0..8 (and
+// the notation's default) must equal the reference layout exactly - deep parts
+// elided, siblings within the limit printed in full.
+func RunC10Elision(c *core.Ctx) {
+	r := c.Rng
+	root := genRef(r, r.Range(1, 12))
+	if root.kind == "" {
+		root = &refNode{kind: "List", kids: []*refNode{root, genRef(r, 11), genRef(r, 3)}}
+	}
+	v := root.build()
+	max := r.Intn(10)
+	var got string
+	var want strings.Builder
+	if max == 9 {
+		max = cdc.Formatter().DefaultMaximum()
+		if pan, msg := try(func() { got = mod.FormatValue(v) }); pan {
+			c.Violation("elision/format-panicked", "FormatValue panicked: "+clip(msg, 200), nil)
+			return
+		}
+	} else if pan, msg := try(func() { got = cdc.Formatter().MakeWithMaximum(max).FormatValue(v) }); pan {
+		c.Violation("elision/format-panicked", "FormatValue panicked: "+clip(msg, 200), nil)
+		return
+	}
+	refFormat(root, 0, 0, max, &want)
+	want.WriteString("\n")
+	if got != want.String() {
+		c.Violation("elision/wrong-text", fmt.Sprintf("with a depth limit of %d the text differs from the documented layout (deep parts elided, everything within the limit printed)", max),
+			map[string]any{"limit": max, "got": clip(got, 1200), "expected": clip(want.String(), 1200)})
+		return
+	}
+	if strings.Contains(got, "...") {
+		c.Cover("elision.texts-with-elided-parts")
+	}
+	c.Cover("elision")
+	c.Distinct(core.Mix(core.HashStr(got), uint64(max)))
+	if c.WantSample("elision") && len(got) < 300 && strings.Contains(got, "...") {
+		c.Sample("elision", map[string]any{"limit": max, "text": got})
+	}
+}
